@@ -29,6 +29,12 @@ func boundaryOf(op token.Token, k *big.Int) (*big.Int, bool) {
 // boundariesIn lists, for the comparisons in fn whose non-constant operand's
 // path contains sub, the boundaries they draw.
 func boundariesIn(fn *ssa.Function, sub string) map[string]ssa.Instruction {
+	return boundariesOn(fn, sub, nil)
+}
+
+// boundariesOn: as boundariesIn; with a parameter given, the comparisons of exactly that parameter
+// (the operand handed to a helper) are collected instead of those matching sub.
+func boundariesOn(fn *ssa.Function, sub string, param *ssa.Parameter) map[string]ssa.Instruction {
 	out := map[string]ssa.Instruction{}
 	for _, b := range fn.Blocks {
 		for _, in := range b.Instrs {
@@ -57,7 +63,11 @@ func boundariesIn(fn *ssa.Function, sub string) map[string]ssa.Instruction {
 				}
 				break
 			}
-			if !containsParts(stripConv(ssau.Path(x)), sub) && !containsParts(describeOperand(inner), sub) {
+			if param != nil {
+				if inner != ssa.Value(param) {
+					continue
+				}
+			} else if !containsParts(stripConv(ssau.Path(x)), sub) && !containsParts(describeOperand(inner), sub) {
 				continue
 			}
 			if bnd, ok := boundaryOf(op, k); ok {
@@ -100,12 +110,55 @@ func TabBounds(p *load.Program) *report.RuleResult {
 		// extracted into a helper keeps the same comparisons on a parameter of the same name)
 		found := map[string]ssa.Instruction{}
 		pat := strings.TrimPrefix(rw.operand, "phi ")
-		for _, g := range helperClosure(p, fn, func(f *ssa.Function) bool {
+		closure := helperClosure(p, fn, func(f *ssa.Function) bool {
 			return (f.Object() == nil || !f.Object().Exported()) && p.File(f.Pos()) == p.File(fn.Pos())
-		}, 2) {
+		}, 2)
+		for _, g := range closure {
 			for k, v := range boundariesIn(g, pat) {
 				if _, dup := found[k]; !dup {
 					found[k] = v
+				}
+			}
+		}
+		// a predicate helper given the operand as an argument (fits(x)) compares its parameter
+		if pat != "" {
+			for _, g := range closure {
+				for _, b := range g.Blocks {
+					for _, in := range b.Instrs {
+						c, ok := in.(ssa.CallInstruction)
+						if !ok {
+							continue
+						}
+						callee := c.Common().StaticCallee()
+						if callee == nil || callee == fn || len(callee.Blocks) == 0 {
+							continue
+						}
+						inClosure := false
+						for _, h := range closure {
+							inClosure = inClosure || h == callee
+						}
+						if !inClosure {
+							continue
+						}
+						for i, a := range c.Common().Args {
+							inner := a
+							for {
+								if cv, ok := inner.(*ssa.Convert); ok {
+									inner = cv.X
+									continue
+								}
+								break
+							}
+							if i >= len(callee.Params) || (!containsParts(stripConv(ssau.Path(a)), pat) && !containsParts(describeOperand(inner), pat)) {
+								continue
+							}
+							for k, v := range boundariesOn(callee, "", callee.Params[i]) {
+								if _, dup := found[k]; !dup {
+									found[k] = v
+								}
+							}
+						}
+					}
 				}
 			}
 		}
@@ -240,8 +293,20 @@ func OrdTextIVM(p *load.Program) *report.RuleResult {
 		var vpaths []string
 		for _, b := range fn.Blocks {
 			for _, in := range b.Instrs {
+				if c, ok := in.(*ssa.Call); ok {
+					// a predicate helper that is true only for the marker text (isVersionMarker(val))
+					if f := c.Call.StaticCallee(); f != nil {
+						for _, fact := range predicateFacts(p, f) {
+							for i, prm := range f.Params {
+								if fact.Kind == "eq" && fact.Arg == `k:"$ion_1_0"` && fact.Path == "p."+prm.Name() && i < len(c.Call.Args) {
+									vpaths = append(vpaths, ssau.Path(c.Call.Args[i]))
+								}
+							}
+						}
+					}
+				}
 				bo, ok := in.(*ssa.BinOp)
-				if !ok || bo.Op != token.EQL {
+				if !ok || (bo.Op != token.EQL && bo.Op != token.NEQ) {
 					continue
 				}
 				for _, pr := range [][2]ssa.Value{{bo.X, bo.Y}, {bo.Y, bo.X}} {
@@ -252,6 +317,14 @@ func OrdTextIVM(p *load.Program) *report.RuleResult {
 			}
 		}
 		if len(vpaths) == 0 {
+			continue
+		}
+		isPred := false
+		for _, fact := range predicateFacts(p, fn) {
+			isPred = isPred || (fact.Kind == "eq" && fact.Arg == `k:"$ion_1_0"`)
+		}
+		if isPred {
+			// the comparison lives in a predicate helper: the obligations are its callers'
 			continue
 		}
 		found++
